@@ -10,9 +10,13 @@ CONSTANTS
   InitMs = 0
   InitRems = {0}
   NTerms = 1
+  ChainPeriods = {}
+  Starts = {}
+  NodeAts = {}
   KeepHist = FALSE
   KF_TdposPreInit = FALSE
   KF_XpoaNegativeTs = FALSE
+  KF_TdposTermSetOffset = FALSE
 CONSTRAINT Book
 POSTCONDITION Post
 CHECK_DEADLOCK FALSE
